@@ -300,7 +300,14 @@ class TrafficFilter:
         Returns:
             bool: True if the IP is external, False otherwise
         """
-        return IPv4Address(ip) not in _PRIVATE_IP_RANGES.get(ip[:2], _BLACK_HOLE)
+        try:
+            address = IPv4Address(ip)
+        except ValueError:
+            # Not an IPv4 address (e.g. the IPv6 literal "::1"): only IPv4 ranges are known
+            # here, so do not route it through the Proxy instead of raising into the caller.
+            return False
+
+        return address not in _PRIVATE_IP_RANGES.get(ip[:2], _BLACK_HOLE)
 
     def _is_external_domain(self, host: str) -> Optional[bool]:
         """Check whether an HOST is external or not
@@ -314,7 +321,8 @@ class TrafficFilter:
         try:
             return self._is_external_ip(gethostbyname(host))
 
-        except socket_error as error:
+        except (socket_error, UnicodeError) as error:
+            # UnicodeError: the name cannot even be encoded for resolution (e.g. "a..b")
             # If there is a network error, we will avoid storing this and will try again next time.
             self._logger.warning(
                 f"TrafficFilter::Could not resolve: '{host}'. Error: {error}"
